@@ -11,7 +11,10 @@ class Check(EngineCheck):
                 E + "C05_persisted_only_completed", E + "C05_quiescent", E + "step_inv",
                 E + "engine_fingerprint_matches_model",
                 # for every run of the concrete engine model (refinement, Lemmas/Refine): nothing is left behind, later builds are clean
-                "LLBuild.Refine.refinement_final", "LLBuild.Refine.EngineImpl_sound_C05_quiescent", "LLBuild.Refine.EngineImpl_sound_C01"]
+                "LLBuild.Refine.refinement_final", "LLBuild.Refine.EngineImpl_sound_C05_quiescent", "LLBuild.Refine.EngineImpl_sound_C01",
+                # no hang: every build of the transliterated engine returns (potential-function termination proof), any schedule, any cancellation point
+                "LLBuild.Refine.build_terminates", "LLBuild.Refine.EngineImpl_terminates", "LLBuild.Refine.refinement_final_sized",
+                "LLBuild.Refine.EngineImpl_sound_C05_quiescent_sized", "LLBuild.Refine.EngineImpl_sound_C01_sized"]
     mix = [(0.7, {"cancel": True}), (0.15, {"cancel": True, "threads": True}), (0.15, {"cancel": True, "cyclic": True})]
     budget = (350, 3500)
     assumptions = EngineCheck.assumptions + [
